@@ -362,6 +362,10 @@ type scnResult struct {
 	Status    string    `json:"status"` // ok | panic | watchdog | crashed
 	Detail    string    `json:"detail,omitempty"`
 	WallS     float64   `json:"wall_s"`
+	// MaxStallMs: the longest time this process itself was not scheduled (a goroutine sleeping 5 ms at a time woke up that much too
+	// late). Real-time premises of the scenarios ("the peer answers within the timeout") are only as good as the machine: a stall of
+	// the order of a unit means the run says nothing about the library's timing
+	MaxStallMs float64 `json:"max_stall_ms"`
 }
 
 // cmdScn runs one scenario in this process
@@ -389,6 +393,21 @@ func cmdScn(args []string) int {
 	t := &T{Name: s.Name, Transport: args[1], Version: version, Seed: seed, rg: &rng{seed}, t0: time.Now(), warns: map[string]int{}, dos: map[string]*doResult{}, Codec: s.Codec}
 	res := scnResult{Name: s.Name, Transport: args[1], Version: version, Seed: seed, Status: "ok"}
 	done := make(chan struct{})
+	var maxStall int64 // ns
+	go func() {        // stall monitor
+		for {
+			select {
+			case <-done:
+				return
+			default:
+			}
+			t0 := time.Now()
+			time.Sleep(5 * time.Millisecond)
+			if late := int64(time.Since(t0) - 5*time.Millisecond); late > atomic.LoadInt64(&maxStall) {
+				atomic.StoreInt64(&maxStall, late)
+			}
+		}
+	}()
 	go func() {
 		defer close(done)
 		defer func() {
@@ -422,6 +441,7 @@ func cmdScn(args []string) int {
 		res.Hooks = append(res.Hooks, fmt.Sprintf("%d g%d %s %s", e.Seq, e.Gid, e.Label, strings.Join(a, ",")))
 	}
 	res.WallS = time.Since(t.t0).Seconds()
+	res.MaxStallMs = float64(atomic.LoadInt64(&maxStall)) / 1e6
 	js, _ := json.Marshal(res)
 	os.Stdout.Write(js)
 	os.Stdout.Write([]byte("\n"))
@@ -571,7 +591,11 @@ func cmdClient(args []string) int {
 		}(i, j)
 	}
 	wg.Wait()
-	// flake control: a scenario whose only failed verdicts are real-time bounds is re-run alone with the unit doubled
+	// flake control: a scenario whose only failed verdicts are real-time bounds is re-run alone with the unit doubled. So is a scenario
+	// with failed verdicts during which this machine stalled the scenario process itself for a unit or more (measured by the stall
+	// monitor): with the process frozen for that long, "the peer answered in time" and every deadline of the script mean nothing. The
+	// re-run is alone (no other scenario competes) and slower; if the machine stalls that one too, once more with four times the unit.
+	// A failure of the library shows again on the quiet re-run; the stalls observed are kept in the result
 	retried := 0
 	for i, r := range results {
 		onlyTiming := r.Status == "ok"
@@ -584,9 +608,20 @@ func cmdClient(args []string) int {
 				}
 			}
 		}
-		if failed > 0 && onlyTiming {
+		unitMs := int(unit / time.Millisecond)
+		stalled := (r.Status == "ok" || r.Status == "watchdog") && r.MaxStallMs >= float64(unitMs)
+		if (failed > 0 && onlyTiming) || ((failed > 0 || r.Status == "watchdog") && stalled) {
 			retried++
-			results[i] = runOne(jobs[i], 2*int(unit/time.Millisecond))
+			results[i] = runOne(jobs[i], 2*unitMs)
+			r2 := results[i]
+			f2 := r2.Status != "ok"
+			for _, v := range r2.Verdicts {
+				f2 = f2 || !v.OK
+			}
+			if f2 && r2.MaxStallMs >= float64(2*unitMs) {
+				retried++
+				results[i] = runOne(jobs[i], 4*unitMs)
+			}
 		}
 	}
 	f, _ := os.Create(filepath.Join(dir, "results.jsonl"))
